@@ -22,6 +22,9 @@ DIRECTED = [
     ('queued-then-stop', 1, [('Call', 0, 'GetTx', 1), ('Call', 1, 'MarkInvalid', 2), ('Stop', 0, '', 0)]),
     ('queued-drop-otherhash', 1, [('Call', 0, 'GetTx', 1), ('Call', 1, 'SendTx', 2), ('Drop', 0, '', 0), ('Accept', 0, 'otherhash', 0)]),
     ('queued-drop-stop', 2, [('Call', 0, 'GetTx', 1), ('Call', 1, 'FeeQuotes', 2), ('Drop', 0, '', 0), ('Stop', 0, '', 0)]),
+    # the genuine accept of the first connection replayed on the second one (its session key belongs to the first connection's hash)
+    ('replayed-accept', 1, [('Accept', 0, 'valid', 0), ('Ready', 1, '', 0), ('Drop', 0, '', 0), ('Call', 0, 'GetTx', 1), ('Accept', 0, 'replay', 0)]),
+    ('replayed-accept-control', 2, [('Call', 0, 'GetTx', 1), ('Accept', 0, 'valid', 0), ('Drop', 0, '', 0), ('Call', 1, 'SendTx', 2), ('Accept', 0, 'replay', 0)]),
     ('accepted-queued-counts', 1, [('Accept', 0, 'valid', 0), ('Drop', 0, '', 0), ('Call', 0, 'GetTx', 1), ('Accept', 0, 'counts', 0)]),
     # every kind answered in reverse order of issue, then answered again (late duplicates)
     ('all-kinds-reverse', 1, [('Accept', 0, 'valid', 0), ('Ready', 1, '', 0), ('Call', 0, 'GetTx', 1), ('Call', 1, 'GetHeader', 1), ('Call', 2, 'GetHeaders', 1),
